@@ -139,12 +139,18 @@ def _c01(tier, seed):
                 runs.append("H_C01_rt(%d,%d,1,0)" % (idx, pat))
         kern = ["H_string(0,9,1)", "H_string(250,258,1)", "H_string_last(0,9)", "H_string_last(250,261)", "H_popmessage_arbitrary(10)", "H_string(65534,65537,0)", "H_string_too_large(0)", "H_string_too_large(1)"]
     else:
+        # every registered constructor with none / all / only-first / only-second; the shared-bit, service and
+        # feature-cover classes with every single-member, all-but-one and pairwise pattern and at nesting depth 2
         for idx in range(N_STRUCTS):
-            for pat in list(range(0, 64)) + list(range(1000, 1010)):
+            for pat in (0, 1, 2, 3):
                 runs.append("H_C01_rt(%d,%d,1,0)" % (idx, pat))
-            for variant in (1, 2):
-                runs.append("H_C01_rt(%d,1,2,%d)" % (idx, variant))
-                runs.append("H_C01_rt(%d,0,2,%d)" % (idx, variant))
+        for cls, n in ((1, 24), (2, 34), (4, 70)):
+            for k in range(n):
+                for pat in list(range(4, 44)) + list(range(1000, 1010)):
+                    runs.append("H_C01_class(%d,%d,%d,1,0)" % (cls, k, pat))
+                for variant in (1, 2):
+                    runs.append("H_C01_class(%d,%d,1,2,%d)" % (cls, k, variant))
+                    runs.append("H_C01_class(%d,%d,0,2,%d)" % (cls, k, variant))
         kern = ["H_string(%d,%d,1)" % (a, a + 7) for a in range(0, 272, 8)] + ["H_string_last(%d,%d)" % (a, a + 15) for a in range(0, 288, 16)] + ["H_popmessage_arbitrary(16)", "H_string(65534,65537,0)", "H_string(16777212,16777215,0)", "H_string_too_large(0)", "H_string_too_large(1)", "H_string_too_large(5)"]
     return [
         dict(name="codec", pkg="telegram", harness=TL_HARNESS, overlay=TL_OVERLAY, native_overlay=TL_OVERLAY, runs=runs, solver="z3", walllimit=120, timeout=3000,
@@ -188,10 +194,14 @@ def _c02(tier, seed):
         kern = ["H_string(0,9,1)", "H_string(250,258,1)", "H_string_last(250,261)", "H_string(65534,65537,0)", "H_string_too_large(0)", "H_string_too_large(1)"]
     else:
         for idx in range(N_STRUCTS):
-            for pat in list(range(0, 64)) + list(range(1000, 1010)):
+            for pat in (0, 1, 2, 3):
                 runs.append("H_C02_wire(%d,%d,1,0)" % (idx, pat))
-            for variant in (1, 2):
-                runs.append("H_C02_wire(%d,1,2,%d)" % (idx, variant))
+        for cls, n in ((1, 24), (2, 34), (4, 70)):
+            for k in range(n):
+                for pat in list(range(4, 44)) + list(range(1000, 1010)):
+                    runs.append("H_C02_class(%d,%d,%d,1,0)" % (cls, k, pat))
+                for variant in (1, 2):
+                    runs.append("H_C02_class(%d,%d,1,2,%d)" % (cls, k, variant))
         kern = ["H_string(%d,%d,1)" % (a, a + 7) for a in range(0, 272, 8)] + ["H_string(65534,65537,0)", "H_string(16777212,16777215,0)", "H_string_too_large(0)", "H_string_too_large(1)", "H_string_too_large(5)"]
     return [
         dict(name="wire", pkg="telegram", harness=TL2_HARNESS, pre=_gen_schema, overlay=TL_OVERLAY, native_overlay=TL_OVERLAY, runs=runs, solver="z3", walllimit=120, timeout=3000,
@@ -219,20 +229,20 @@ N_IDS = 1240
 
 def _c15(tier, seed):
     q = tier == "quick"
-    W = 3 if q else 5
+    W = 3 if q else 4
     runs = ["H_C15_container(%d)" % (4 if q else 6), "H_C15_gzip(2,1)", "H_C15_gzip(2,0)", "H_C15_gzip(2,2)"]
-    idxs = _sample(seed + 3, 1227, 70) if q else range(N_IDS)
+    idxs = _sample(seed + 3, 1227, 70 if q else 300)
     for k in idxs:
         runs.append("H_C15_unknown(%d,%d,0)" % (k, W))
-    for k in (_sample(seed + 4, 1227, 20) if q else range(0, N_IDS, 3)):
+    for k in _sample(seed + 4, 1227, 20 if q else 80):
         runs.append("H_C15_unknown(%d,%d,1)" % (k, W))
-    for k in (_sample(seed + 5, N_STRUCTS, 30) if q else range(N_STRUCTS)):
+    for k in _sample(seed + 5, N_STRUCTS, 30 if q else 120):
         runs.append("H_C15_named(%d,%d)" % (k, W))
     if not q:
         runs.append("H_C15_anyid(1)")
     kern = ["H_popmessage_arbitrary(%d)" % (10 if q else 16)]
     return [
-        dict(name="arbitrary", pkg="telegram", harness=TL3_HARNESS, pre=_gen_schema, overlay=TL_OVERLAY, native_overlay=TL_OVERLAY, runs=runs, solver="z3", walllimit=(60 if q else 300), timeout=3000,
+        dict(name="arbitrary", pkg="telegram", harness=TL3_HARNESS, pre=_gen_schema, overlay=TL_OVERLAY, native_overlay=TL_OVERLAY, runs=runs, solver="z3", walllimit=(60 if q else 90), timeout=3000,
              validate_runs=["H_C15_unknown(%d,3,0)" % (seed % 1200), "H_C15_unknown(%d,3,1)" % ((seed + 77) % 1200), "H_C15_named(%d,3)" % ((seed + 5) % 1100), "H_C15_container(4)", "H_C15_gzip(2,1)"]),
         dict(name="strings", pkg="internal/encoding/tl", harness=["harness/tl/kernel.go"], runs=kern, solver="z3", procs=1, timeout=1500, validate_runs=kern, covers={"H_popmessage_arbitrary": ["accepted"]}),
     ]
@@ -403,14 +413,14 @@ PROPS = {
     "C15": dict(
         jobs=_c15,
         bounds={"quick": "70 seed-chosen registered ids (enums included) followed by up to 3 arbitrary 32-bit words cut at every word boundary and one byte short of it; 20 with vector hints; 30 named decodes; msg_container and gzip_packed (identity-coded gzip stub) with arbitrary bodies; nested constructor ids from the stated candidate set (2 implementers per interface-typed field one level deep, one enum member, pong/rpc_error/msgs_ack, unregistered); allocation obligation size*elem <= 16*len(input)+4096 at every make/MakeSlice with a symbolic size; sizes <= 3 exhaustive, 1 larger representative; gzip_packed with a valid header and a damaged body (model: sticky read error), with a termination obligation (3M SSA instructions; native watchdog 5 s)",
-                "thorough": "all registered ids, 5 words; an arbitrary first word"},
+                "thorough": "300 / 80 / 120 seed-sampled ids (unknown / hinted / named), 4 words, 90 s of exploration per id; an arbitrary first word"},
         outside="inputs longer than the bound; nested ids outside the candidate set; real gzip streams (the stub codes gzip(x) = marker+x); loops are unrolled by execution and every run ended (termination within the bound)",
         assumptions=["compress/gzip modelled as identity coding with a header marker", "reflect modelled by the engine"],
     ),
     "C02": dict(
         jobs=_c02,
         bounds={"quick": "as C01 quick, oracle = reference encoder driven by the schema text (regenerated from schemes/*.tl on every run): shared-bit constructors x 12 patterns, service objects, 120 seed-chosen constructors x 4 patterns; string headers for lengths 0..9, 250..258, 65534..65537, 2^24, 2^24+1; pairwise presence patterns as in C01; a refused value serialised immediately before the value under test",
-                "thorough": "all registered constructors x all single-member presence patterns, depth 2; strings 0..279, 2^24-4..2^24+5"},
+                "thorough": "all registered constructors x {none, all, only-first, only-second}; the shared-bit, service-object and feature-cover classes x every single-member, all-but-one and pairwise pattern (<= 20 conditional fields) and at depth 2 with 2 implementer variants; strings 0..279, 2^24-4..2^24+5"},
         outside="as C01; gzip_packed (hand-written codec, see the known finding); vectors longer than 2",
         assumptions=["genschema.py (independent TL reader) and the reference encoder in harness/telegram/c02.go are the oracle", "pairing Go type <-> schema line is by constructor id (ids pinned by C13's ground obligations)"],
     ),
@@ -424,7 +434,7 @@ PROPS = {
     "C01": dict(
         jobs=_c01,
         bounds={"quick": "all enum members; every constructor with a shared flag bit x presence patterns {none, all, only-j, all-but-j}; all MTProto service objects; msg_container with 0..2 messages (symbolic ids, seq_nos, bodies of 1..3 words); a greedy cover of the distinct field shapes (two constructors per combination of kind/element/conditional/bit-stored/shared) x 4 patterns; 100 seed-chosen constructors x patterns {none, all, only first, only second}; leaves symbolic (int/long/double bits, bool, strings and byte strings of length 0..4, vectors of 0..2, int128/int256 with 0..2 leading zero bytes), nested objects depth 1 with the smallest implementer; strings: every length 0..9, 250..258, 65534..65537 (PutMessage/PopMessage kernels), 2^24 and 2^24+1; pairwise presence patterns (every pair of conditional fields in all four combinations, m <= 16) for the shared-bit and feature-cover classes; other codec traffic (a refused value, a different valid value) between encode and decode",
-                "thorough": "all registered constructors x all single-member patterns, depth 2 with 3 implementer variants; every string length 0..279, 2^24-4..2^24+5"},
+                "thorough": "all registered constructors x {none, all, only-first, only-second}; the shared-bit, service-object and feature-cover classes x every single-member, all-but-one and pairwise pattern and at depth 2 with 2 implementer variants; every string length 0..279, 2^24-4..2^24+5"},
         outside="strings longer than 4 inside a full constructor (covered through the string kernels), nesting deeper than 2, vectors longer than 2, presence patterns that differ from none/all in more than one field, gzip_packed (its encoder is not implemented: known finding), exact-consumption of trailing bytes",
         assumptions=["reflect is modelled by the engine (validated against native reflect on the differential vectors)", "math/big.Int modelled as bit-vectors; Bytes() explored for 0..2 leading zero bytes"],
     ),
